@@ -187,6 +187,7 @@ func zzC13_dwr() {
 	vAssume(ok)
 	req := diam.NewRequest(diam.DeviceWatchdog, 0, dict.Default)
 	req.Header.HopByHopID, req.Header.EndToEndID = vU32("dhbh"), vU32("de2e")
+	req.Header.CommandFlags = diam.RequestFlag | vU8("dwrflags")&0x70
 	req.NewAVP(avp.OriginHost, avp.Mbit, 0, datatype.DiameterIdentity("peer.example"))
 	req.NewAVP(avp.OriginRealm, avp.Mbit, 0, datatype.DiameterIdentity("peers"))
 	wrote := len(c.written)
